@@ -282,10 +282,22 @@ def finish_tree(ctx, res, job, outs):
     tc, reqs, node_sets, pairs, bucket, malformed = job
     shape = tc.shape
     m_tour, m_lca, m_q = outs
-    internal = tc.impl_internal()
-    if internal != m_tour:
-        res.tie_broken("Euler tour / sparse table of the tree", {"kind": "init", "tree": shape},
-                       m_tour, internal)
+    # The Euler tour and the sparse table are INTERNALS (private attributes, a particular table layout).  They are
+    # compared with the model's when they can be read in the expected shape; a different layout, or a difference in
+    # the representation alone, is a note — every public query below is still compared and judged.
+    try:
+        internal = tc.impl_internal()
+    except Exception as e:  # noqa
+        internal = None
+        res.dist["internal tables unreadable (refactored)"] += 1
+        if not any("internal tables" in n for n in res.notes):
+            res.notes.append(f"C17: Euler tour / sparse table could not be read in the expected layout "
+                             f"({type(e).__name__}); internal-table tie skipped, public queries still compared")
+    if internal is not None and internal != m_tour:
+        res.dist["internal tables differ from the model (queries compared separately)"] += 1
+        if not any("differ from the model" in n for n in res.notes):
+            res.notes.append("C17: Euler tour / sparse table differ from the model's on some tree (representation); "
+                             "the public queries are compared and judged separately")
     nt = 0
     for q, mo in zip(node_sets, m_lca):
         q = [list(p) for p in q]
@@ -382,7 +394,10 @@ def impl_rmq(data, queries):
             results.append({"ok": None if r is None else enc_el(r)})
         except Exception as e:  # noqa
             results.append(err(e))
-    table = [[None if c is None else enc_el(c) for c in row] for row in rmq.sparse_table]
+    try:  # the sparse table is an internal attribute with a particular layout: None when it cannot be read
+        table = [[None if c is None else enc_el(c) for c in row] for row in rmq.sparse_table]
+    except Exception:  # noqa
+        table = None
     return {"results": results, "table": table}
 
 
@@ -425,9 +440,16 @@ def check_arrays(ctx, res, arrays, kind, bucket, beyond=0):
                                       expected=exp, observed=r)
                     if t - s >= 2 and not is_pow2(t - s):
                         nt += 1
-        if io != mo:
-            res.tie_broken("RangeMinQuery: table, answers and exception classes",
+        # tie: answers and exception classes must equal the model's; the sparse TABLE is compared too, but a
+        # difference of the table alone (another layout, tuples for lists, ...) is a note, not a broken tie
+        if ("err" in io) != ("err" in mo) or io.get("err") != mo.get("err") or io.get("results") != mo.get("results"):
+            res.tie_broken("RangeMinQuery: answers and exception classes",
                            {"kind": "rmq", "elem": kind, "data": enc, "beyond": beyond}, mo, io)
+        elif io.get("table") != mo.get("table"):
+            res.dist["rmq sparse table differs from the model (answers equal)"] += 1
+            if not any("sparse table" in n_ for n_ in res.notes):
+                res.notes.append("C17: RangeMinQuery.sparse_table differs from the model's table on some array while "
+                                 "every answer agrees (representation)")
         res.case({"kind": "rmq-array", "elem": kind, "data": enc, "beyond": beyond},
                  nontrivial=nt > 0, n=len(qs))
         res.dist[bucket] += len(qs)
